@@ -98,7 +98,9 @@ Definition judge_loss (hs : holdings) (bef : list tx) (t : tx) (n g : Qc)
       if negb force && Qcltb (Qcfrac 1 1000) (Qcabs (computed - sv)) then Offends SflMismatch
       else Goes (if Qcltb sv 0 then sv else 0) []
   | None =>
-      if superficial then
+      (* a denied amount that rounds to zero effective cents is no
+         superficial loss: nothing is denied, no adjustment is generated *)
+      if superficial && Qcltb computed 0 then
         (* holdings of an affiliate at the end of the window, in the split
            period of the sale *)
         let eop := fun af : aff =>
